@@ -10,6 +10,10 @@
 (*   CutChars(k)                  cut in the middle of a token (character) *)
 (*   DelLine / DupLine / SwapLines                                          *)
 (*   DelToken / DupToken / SwapTokens                                       *)
+(*   BreakLine(k)   a backslash-newline continuation in front of token k    *)
+(*   JoinLines(k)   the newline ending line k replaced by a blank           *)
+(*   OddSpace(k)    a form feed / vertical tab / lone CR / U+2028 ... in    *)
+(*                  front of token k (blank, but not a line break)          *)
 (*   Soup(w)        a sequence over the language's lexical alphabet        *)
 (*                  (indices into a per-language table of lexemes incl.    *)
 (*                  newline and indentation)                               *)
@@ -32,7 +36,8 @@ CONSTANTS NBases,        \* base programs 1..NBases (per language, bound by the 
 VARIABLES base, ops
 vars == <<base, ops>>
 
-PosOps == {"Prefix", "Suffix", "CutChars", "DelLine", "DupLine", "SwapLines", "DelToken", "DupToken", "SwapTokens"}
+PosOps == {"Prefix", "Suffix", "CutChars", "DelLine", "DupLine", "SwapLines", "DelToken", "DupToken", "SwapTokens",
+           "BreakLine", "JoinLines", "OddSpace"}
 Op(k, a) == [k |-> k, a |-> a]
 
 Init == base \in 0..NBases /\ ops = <<>>          \* base 0 = the empty text (only soups / nests / bytes apply)
